@@ -103,6 +103,7 @@ type Executor struct {
 	nframes int
 	stack   []*ssa.Function
 	entry   *State // entry state of the unit's top function (for old())
+	frame   *frameSpec
 }
 
 func (x *Executor) recordWrite(comp string) {
